@@ -174,6 +174,47 @@ def rphys_va(r, tid, rows):
     return VA("rle", rows=n, runs=bytes(runs), vals=Obj(tid, vals))
 
 
+def rphys_invalid(r):
+    """structurally parseable but semantically invalid tables: duplicate names in the file-wide
+    name list (also via embedded NULs), duplicate table-level names, duplicate property names —
+    the reader's error paths inside sbdf_md_add / sbdf_cs_read"""
+    p = rphys(r, maxcols=3, maxslices=2)
+    k = r.randrange(4)
+    if k == 0 or not p.names:
+        base = r.choice([b"dup", b"Name", b"a"])
+        tid = r.choice(ALL_TIDS)
+        extra = [(base, tid, rsingle(r, tid) if r.random() < 0.5 else None),
+                 (base + (b"\0x" if r.random() < 0.5 else b""), tid, None)]
+        pos = r.randrange(len(p.names) + 1)
+        p.names[pos:pos] = extra
+        for col in p.cols:
+            if r.random() < 0.8:
+                col[extra[0][0]] = rsingle(r, tid)
+                col[extra[1][0]] = rsingle(r, tid)
+        if not p.cols:
+            p.cols.append({extra[0][0]: rsingle(r, tid), extra[1][0]: rsingle(r, tid)})
+            for sl in p.slices:
+                sl.append((rphys_va(r, 2, sl[0][0].rows_() if sl else 0), []))
+    elif k == 1:
+        n, v, d = (p.tmd[0] if p.tmd else (b"t", rsingle(r, 2), None))
+        p.tmd.append((n, rsingle(r, v.tid), d))
+        p.tmd.append((n + b"\0", rsingle(r, v.tid), None))
+    elif k == 2 and p.slices and p.slices[0]:
+        sl = r.choice(p.slices)
+        i = r.randrange(len(sl))
+        v, props = sl[i]
+        pv = rphys_va(r, 1, v.rows_())
+        sl[i] = (v, props + [(b"dupprop", pv), (b"dupprop", pv)])
+    else:
+        # a name row whose default has another type than the row says cannot be expressed by the
+        # encoder (the type byte is shared); instead: empty names and very long names
+        p.names.insert(0, (b"", 2, None))
+        p.names.append((b"n" * 300, 10, rsingle(r, 10)))
+        for col in p.cols:
+            col[b""] = rsingle(r, 2)
+    return p
+
+
 def rphys(r, maxcols=4, maxslices=3):
     """reference-encoder table with layouts the library never emits"""
     tmd = []
